@@ -71,6 +71,12 @@ def check(run):
         cases.append(("verify_roots", full, bytes(64) + le(M["root"], 32)))
         if M["root"] + P < 2**256:
             cases.append(("verify_roots", full, le(M["root"] + P, 32)))
+            # correlated arguments: the message carries the ALIAS bytes of its root and the caller's root set carries the very same bytes
+            v2 = list(vals); v2[0] = M["root"] + P
+            al_full = rlngen.verify_input(rlngen.join_msg(proof, v2), sig)
+            for rb in (le(M["root"] + P, 32), le(M["root"], 32) + le(M["root"] + P, 32), le(M["root"] + P, 32) + le(M["root"], 32)):
+                cases.append(("verify_roots", al_full, rb))
+                cases.append(("verify_roots", full, rb))
         lm = []
         for op, b, second in cases:
             if op == "recover":
